@@ -41,11 +41,15 @@ Theorem C18_foreign_checkpoint_refused :
 Proof. exact foreign_checkpoint_refused. Qed.
 Print Assumptions C18_foreign_checkpoint_refused.
 
+(* DeleteRange = the underlying call (after one LastIndex read, which has no
+   effect); the verifier state restarts iff the range reached that last index *)
 Theorem C18_passthrough_delete :
   forall nd mn mx,
     match delete_range (n_store nd) mn mx with
     | Some s' => node_delete nd mn mx = (true, snd (node_delete nd mn mx)) /\
-                 n_store (snd (node_delete nd mn mx)) = s'
+                 n_store (snd (node_delete nd mn mx)) = s' /\
+                 n_v (snd (node_delete nd mn mx)) =
+                   (if last_index (n_store nd) <=? mx then v_init else n_v nd)
     | None => fst (node_delete nd mn mx) = false /\
               n_store (snd (node_delete nd mn mx)) = n_store nd /\
               n_v (snd (node_delete nd mn mx)) = n_v nd
